@@ -605,14 +605,19 @@ fn frameable(dir: Dir, pdu: &[u8]) -> bool {
 }
 
 fn adu_req(tr: &str, tid: u16, id: u8, spec: &ReqSpec) -> String {
-    if tr == "rtu" && matches!(spec, ReqSpec::Res | ReqSpec::Gcc | ReqSpec::Gcl | ReqSpec::Rsi) {
-        // serial-line framing supports these one-byte requests (rtu::request_pdu_len frames 07, 0B, 0C, 11),
+    if matches!(spec, ReqSpec::Res | ReqSpec::Gcc | ReqSpec::Gcl | ReqSpec::Rsi) {
+        // both framing layers support these one-byte requests (request_pdu_len frames 07, 0B, 0C, 11),
         // but the value cannot be encoded at all
         return with_req(spec, |v| {
             let Some(v) = v else { return "NA constructor refused".into() };
             let mut buf = vec![0u8; 16];
-            match catch(|| rtu::client::encode_request(rtu::RequestAdu { hdr: rtu::Header { slave: id }, pdu: RequestPdu(v) }, &mut buf)) {
-                None => fail("D19", format!("rtu::client::encode_request of {:?} panicked (unimplemented kind)", FunctionCode::from(v))),
+            let r = if tr == "rtu" {
+                catch(|| rtu::client::encode_request(rtu::RequestAdu { hdr: rtu::Header { slave: id }, pdu: RequestPdu(v) }, &mut buf))
+            } else {
+                catch(|| tcp::server::encode_request(tcp::RequestAdu { hdr: tcp::Header { transaction_id: tid, unit_id: id }, pdu: RequestPdu(v) }, &mut buf))
+            };
+            match r {
+                None => fail("D19", format!("{tr} encode_request of {:?} panicked (unimplemented kind)", FunctionCode::from(v))),
                 Some(_) => "PASS".into(),
             }
         });
